@@ -21,6 +21,7 @@ class Scalar (α : Type) extends OrdField α where
   sqrt : α → α
   acos : α → α
   atan2 : α → α → α
+  floor : α → α
   /-- the constant `np.pi` -/
   pi : α
 
@@ -57,6 +58,7 @@ instance : Scalar Float where
   sqrt := Float.sqrt
   acos := Float.acos
   atan2 := Float.atan2
+  floor := Float.floor
   pi := 3.141592653589793
 
 instance : OrdField Rat where
